@@ -124,7 +124,7 @@ def write_cfg(path, sl, emit, invariants, spec_props=""):
     body = ("CONSTANTS\n  Names = %s\n  Stages = %s\n  RepChoices = %s\n  AggChoices = %s\n  Spellings = %s\n  Paths = %s\n"
             "  Methods = %s\n  ArgStyles = %s\n  DocOrders = %s\n  MaxComps = %d\n  MaxRefs = %d\n  FixedNames = %s\n  Emit = %s\n"
             "  PrivChoices = %s\n  AggVarChoices = %s\n  StageVals0 = %s\n  StageVals1 = %s\n  MaxSame = %d\n"
-            "  Platforms = %s\n  PlatGlobalVals = %s\n  PlatStageVals0 = %s\n  PlatStageVals1 = %s\n"
+            "  Platforms = %s\n  PlatGlobalVals = %s\n  PlatStageVals0 = %s\n  PlatStageVals1 = %s\n  MsgStageVals = {0}\n"
             "SPECIFICATION Spec\n%sCHECK_DEADLOCK FALSE\n" % (
                 _set(sl["names"]), _set(sl["stages"]), _set(sl["reps"]), _set(sl["aggs"]), _set(sl["spell"]), _set(sl["paths"]),
                 _set(sl["methods"]), _set(sl["styles"]), _set(sl["orders"]), sl["comps"], sl["refs"],
